@@ -15,7 +15,8 @@ def exf_of(name):
 
 
 def insts(F, rx, what, minimum=1):
-    r = [i for i in F.inst if i.local and i.body is not None and re.search(rx, i.name)]
+    want_closure = "closure" in rx
+    r = [i for i in F.inst if i.local and i.body is not None and re.search(rx, i.name) and (want_closure or i.kind != "closure")]
     if len(r) < minimum:
         raise AnchorLost("%s: found %d instance(s), expected >= %d" % (what, len(r), minimum))
     return r
@@ -65,4 +66,21 @@ def delegating_calls(F, m, param=2):
             a = deps(m, flow(m).term_arg(bb, ai), follow=lambda x: False)
             if ("param", param) in a:
                 out.append((bb, t, c, ai)); break
+    return out
+
+
+def slot_index_exprs(m, exprs):
+    """index expressions of a reference into the slot table: `&slots[i]` (Index projection) or the payload of `slots.get(i)`"""
+    from ..flow import flow as _flow
+    out = []
+    for e in exprs:
+        x = deep_strip(e)
+        while x[0] in ("ref", "deref", "cast"):
+            x = deep_strip(x[1])
+        if x[0] == "index":
+            out.append(x[2])
+        elif x[0] == "field" and deep_strip(x[1])[0] == "downcast" and deep_strip(x[1])[2] == "Some":
+            c = deep_strip(deep_strip(x[1])[1])
+            if c[0] == "call" and re.search(r"slice::<impl \[T\]>::get(_unchecked)?$", c[3] or ""):
+                out += list(_flow(m).term_arg(c[1], 1))
     return out
